@@ -112,9 +112,13 @@ fn find_marked(forest: &[Node], pred: &dyn Fn(&Node) -> bool) -> Option<usize> {
 fn stage_fault(i: &Input, c: &mut Case) -> Result<(), String> {
     let mut t = Tape::new(i.tape());
     let to = TreeOpts { max_nodes: 24, pay: PayOpts { big_left: 0, huge: false, max_small: 16 }, deep: t.chance(1, 2), ..TreeOpts::default() };
-    let mut d = gen_doc(&mut t, SpecOpts::default(), to, EncOpts { widths: true, unknown: false, full: false, noncanonical: false });
-    let spec = d.spec.table().clone();
     let fault = *t.pick(&[Fault::None, Fault::UnknownId, Fault::UnknownId, Fault::Misplaced, Fault::Misplaced, Fault::Overrun, Fault::Overrun, Fault::Oversize, Fault::Oversize]);
+    // the overrun fault is also injected into documents that mix known- and unknown-size masters (the overrun is measured
+    // against the innermost KNOWN-size ancestor); the id / placement faults keep to known-size documents, where an inserted
+    // element cannot at the same time end an unknown-size master
+    let with_unknown = fault == Fault::Overrun && t.chance(1, 2);
+    let mut d = gen_doc(&mut t, SpecOpts::default(), to, EncOpts { widths: true, unknown: with_unknown, full: false, noncanonical: false });
+    let spec = d.spec.table().clone();
     let limit_choice = *t.pick(&[None, Some(5usize), Some(100), Some(4096)]);
     let mut bytes;
     let mut lay;
@@ -179,7 +183,10 @@ fn stage_fault(i: &Input, c: &mut Case) -> Result<(), String> {
         if cands.is_empty() {
             fault = Fault::None;
         } else {
-            let v = cands[t.below(cands.len())];
+            // prefer victims sitting directly inside an unknown-size master (the overrun is then against a grand-ancestor)
+            let pre = ref_encode(&d.forest).1;
+            let inside_unknown: Vec<usize> = cands.iter().copied().filter(|&k| pre[k].parent.map(|p| pre[p].unknown).unwrap_or(false)).collect();
+            let v = if !inside_unknown.is_empty() && t.chance(3, 4) { inside_unknown[t.below(inside_unknown.len())] } else { cands[t.below(cands.len())] };
             // widen: set size_w = 4 on that node
             fn set(n: &mut Node, k: &mut usize, v: usize) {
                 if *k == v {
@@ -217,7 +224,22 @@ fn stage_fault(i: &Input, c: &mut Case) -> Result<(), String> {
             let v = victim.unwrap();
             let l = lay[v].clone();
             // innermost known-size ancestor end
-            let parent_end = lay[l.parent.unwrap()].payload_end;
+            let mut anc = l.parent;
+            while let Some(a) = anc {
+                if !lay[a].unknown {
+                    break;
+                }
+                anc = lay[a].parent;
+            }
+            let Some(anc) = anc else {
+                c.skipped = true;
+                c.exclude("overrun_victim_has_no_known_size_ancestor");
+                return Ok(());
+            };
+            if lay[anc].index != l.parent.unwrap() {
+                c.label_n("overrun_through_unknown_size_master", 8);
+            }
+            let parent_end = lay[anc].payload_end;
             let new_size = (parent_end - l.header_end) as u64 + 1 + t.below(20) as u64;
             let sv = ref_vint(new_size, 4).unwrap();
             bytes[l.id_end..l.header_end].copy_from_slice(&sv);
@@ -331,12 +353,15 @@ fn stage_fault(i: &Input, c: &mut Case) -> Result<(), String> {
                         if !ok {
                             return Err(ctx(format!("expected the {:?} fault's own error kind at offset {} (id {:#x})", fault, start, id)));
                         }
-                        if items != flat[..fp] {
-                            return Err(ctx(format!("items before the fault differ from the document's prefix ({} items expected)", fp)));
+                        // Ends of unknown-size masters that only the faulty element would close may be missing (it is rejected before it closes anything)
+                        let must = flat[..fp].iter().rposition(|f| !f.is_end()).map(|x| x + 1).unwrap_or(0);
+                        if items.len() < must || items.len() > fp || items[..] != flat[..items.len()] {
+                            return Err(ctx(format!("items before the fault differ from the document's prefix ({}..={} items expected)", must, fp)));
                         }
                     } else {
                         // own class tolerated: strict prefix must still be there (rule 5)
-                        if items.len() < fp || items[..fp] != flat[..fp] {
+                        let must = flat[..fp].iter().rposition(|f| !f.is_end()).map(|x| x + 1).unwrap_or(0);
+                        if items.len() < must || items[..must] != flat[..must] {
                             return Err(ctx("tolerating the fault's class lost tags that the strict parse delivers".into()));
                         }
                         c.label("own_class_tolerated");
@@ -437,8 +462,9 @@ pub const STAGES: &[Stage] = &[
 
 pub fn run(rc: &mut RunCtx) {
     rc.run_indexed(STAGES[1], 6 * 5 * 3, true, &|k| Input::Args(vec![k / 15, (k / 3) % 5, k % 3]));
-    rc.run_pt(STAGES[0], rc.pick(10_000, 400_000), (96, 500));
-    rc.run_pt(STAGES[2], rc.pick(10_000, 400_000), (96, 500));
+    rc.run_pt(STAGES[0], rc.pick(40_000, 800_000), (96, 500));
+    rc.run_pt(STAGES[2], rc.pick(40_000, 800_000), (96, 500));
+    rc.require_label("single_fault", "overrun_through_unknown_size_master", 5_000);
     for l in ["fault_unknown_id", "fault_misplaced", "fault_overrun", "fault_oversize", "own_class_tolerated", "limit_untouched"] {
         rc.require_label("single_fault", l, 20_000);
     }
